@@ -507,7 +507,7 @@ func runMesh3(t testingT, src, sched *choice.Source, st *Stats) (fs []Finding) {
 	}
 	for step := 0; step < n; step++ {
 		was := h.real.VerifHasVertexIndex()
-		op := src.Intn(19) // (recorded tapes hold reduced values, so the range may grow)
+		op := src.Intn(21) // (recorded tapes hold reduced values, so the range may grow)
 		switch op {
 		case 0, 1, 2:
 			t := h.newFace(src)
@@ -705,6 +705,126 @@ func runMesh3(t testingT, src, sched *choice.Source, st *Stats) (fs []Finding) {
 					return h.fail("transform", "Transform(Translate) does not hold the translated current faces")
 				}
 				h.log("Center+Transform")
+			}
+		case 19, 20:
+			// iteration whose callback edits the mesh ("if f adds or removes triangles /
+			// vertices, they will not be visited"): at its k-th call the callback removes
+			// one face and adds one with as many new vertices as the removed face had to
+			// itself.  Whatever the visiting order, everything visited must be current at
+			// that moment, nothing added is visited, and what stayed is visited once.
+			if len(h.list) < 2 {
+				break
+			}
+			k := src.Intn(len(h.list))
+			rm := h.list[src.Intn(len(h.list))]
+			uses := map[model3d.Coord3D]int{}
+			for _, t := range h.list {
+				seen := map[model3d.Coord3D]bool{}
+				for _, c := range t {
+					if !seen[c] {
+						seen[c] = true
+						uses[c]++
+					}
+				}
+			}
+			var shared []model3d.Coord3D
+			private := 0
+			seenR := map[model3d.Coord3D]bool{}
+			for _, c := range rm {
+				if seenR[c] {
+					continue
+				}
+				seenR[c] = true
+				if uses[c] == 1 {
+					private++
+				} else {
+					shared = append(shared, c)
+				}
+			}
+			add := &tri{}
+			for j := 0; j < 3; j++ {
+				if j < private {
+					add[j] = model3d.XYZ(100+float64(step)+0.25*float64(j), 50+float64(len(h.list)), float64(j)) // brand-new vertex
+				} else if len(shared) > 0 {
+					add[j] = shared[(j-private)%len(shared)]
+				} else {
+					add[j] = add[0]
+				}
+			}
+			current := map[*tri]bool{}
+			for _, t := range h.list {
+				current[t] = true
+			}
+			curVerts := func() map[model3d.Coord3D]bool {
+				m := map[model3d.Coord3D]bool{}
+				for t := range current {
+					for _, c := range t {
+						m[c] = true
+					}
+				}
+				return m
+			}
+			calls, bad := 0, ""
+			edit := func() {
+				if calls == k {
+					h.real.Remove(rm)
+					delete(current, rm)
+					h.real.Add(add)
+					current[add] = true
+				}
+				calls++
+			}
+			if op == 19 {
+				visited := map[*tri]int{}
+				h.real.Iterate(func(t *tri) {
+					if !current[t] && bad == "" {
+						bad = "Iterate visited a face that its own callback had already removed"
+					}
+					if t == add && bad == "" {
+						bad = "Iterate visited a face that its own callback had added"
+					}
+					visited[t]++
+					edit()
+				})
+				for _, t := range h.list {
+					if t != rm && visited[t] != 1 && bad == "" {
+						bad = fmt.Sprintf("Iterate with an editing callback visited a face that stayed in the mesh %d times", visited[t])
+					}
+				}
+				h.log("Iterate(editing callback)")
+			} else {
+				before := curVerts()
+				visited := map[model3d.Coord3D]int{}
+				h.real.IterateVertices(func(c model3d.Coord3D) {
+					if !curVerts()[c] && bad == "" {
+						bad = fmt.Sprintf("IterateVertices visited %v, which no current face uses any more (its callback removed it)", c)
+					}
+					if !before[c] && bad == "" {
+						bad = fmt.Sprintf("IterateVertices visited %v, which its own callback had added", c)
+					}
+					visited[c]++
+					edit()
+				})
+				after := curVerts()
+				for c := range before {
+					if after[c] && visited[c] != 1 && bad == "" {
+						bad = fmt.Sprintf("IterateVertices with an editing callback visited vertex %v, which stayed in the mesh, %d times", c, visited[c])
+					}
+				}
+				h.log("IterateVertices(editing callback)")
+			}
+			if calls > k {
+				for i, t := range h.list {
+					if t == rm {
+						h.list = append(h.list[:i:i], h.list[i+1:]...)
+						break
+					}
+				}
+				h.removed = append(h.removed, rm)
+				h.list = append(h.list, add)
+			}
+			if bad != "" {
+				return h.fail("iterate-editing", bad)
 			}
 		}
 		now := h.real.VerifHasVertexIndex()
